@@ -181,20 +181,23 @@ func (rs *rawSocketPeer) IsLocal() bool { return false }
 //
 // *** Do not call Send after calling Close. ***
 func (rs *rawSocketPeer) Close() {
+	// Tell recvHandler to close.
+	close(rs.closed)
+
 	// Tell sendHandler to exit, and discard any queued messages. Do not close
 	// wr channel in case there are incoming messages during close.
 	rs.cancelSender()
+
+	// Close the socket before waiting for sendHandler: if the other side has
+	// stopped reading, sendHandler is blocked in a write that only closing
+	// the socket ends. Ignore errors since socket may have been closed by
+	// other side first in response to a goodbye message.
+	_ = rs.conn.Close()
+
 	<-rs.writerDone
 	close(rs.wr)
 	for range rs.wr {
 	}
-
-	// Tell recvHandler to close.
-	close(rs.closed)
-
-	// Ignore errors since socket may have been closed by other side first in
-	// response to a goodbye message.
-	_ = rs.conn.Close()
 }
 
 // sendHandler pulls messages from the write channel, and pushes them to the
